@@ -271,6 +271,7 @@ def run(ck):
     ck.bounded_run("trace_chains", r.gen_cases(ck.seed, n, 25 if ck.tier == "quick" else 60), r.run_case, ref="rtc.c19:run_case",
                    rule="paired entry/exit lists (2..N particles, 1..3 tomograms, exit sites displaced by random vectors, dense clusters forcing merge/prefix/cut) x max_distance x min_distance >= 0; "
                         "the property verbatim: every particle once, per tomogram each chain carries orders 1..k, consecutive exit->entry distance in (min,max] and equal to the recorded value, no chain spans tomograms. "
+                        "the requires of the proved callee contracts (add_chain_suffix / add_chain_prefix: chain invariant of the traced table, unused object numbers, ...) are checked at their call sites on every real call. "
                         "distinct = (case, size, tomograms)",
                    bound=f"{n} cases, <= {25 if ck.tier == 'quick' else 60} particles")
     ns = 200 if ck.tier == "quick" else 4000
